@@ -32,8 +32,10 @@ PROVED = {
          "between min and max arbitrary masters, whole chain consumed) for every path and chain; the writer's check accepts iff the chain of open "
          "masters matches, is applied to every non-End tag of a known id under every option, and a rejection is UnexpectedTag{id, chain} with the state "
          "unchanged; the reader judges an element against the chain that remains after the unknown-size masters it closes, where the closed count is "
-         "proved to be the declarative closing rule (largest k: k innermost masters unknown-size, outermost of them ended by the element). The reader's "
-         "HierarchyError fields and the call sites are tied by correspondence (every id x reachable chains, brute-force oracle).", ""),
+         "proved to be the declarative closing rule (largest k: k innermost masters unknown-size, outermost of them ended by the element); the reader's "
+         "HierarchyError carries the id at the cursor and the innermost open master and is reported exactly when the remaining chain does not match "
+         "(C11_reader_error_fields). The call sites are additionally tied by correspondence (every id x reachable chains, incl. paths with several "
+         "placeholders, brute-force pattern oracle).", ""),
  "C09": ("Theorems: deprecated unknown-size call = option-based call (definitional in the fixed code); a Full item is buffered as its Start (same "
          "options), its children, its End; an element write appends exactly id ++ size field ++ payload where the payload depends on the value only "
          "and an explicit width w gives a size field of exactly w bytes; write_all delivers exactly the data for every write script without a hard "
